@@ -49,6 +49,13 @@ Definition dispatch_derive (name : list byte) (a : list (list byte)) : option (l
   else if is name "xmd" then Some [expand_message_xmd (curve_hash (narg a 0)) (arg a 1) (arg a 2) (N.to_nat (narg a 3))]
   else None.
 
+Definition curve_bits (c : N) : N := match c with 1 => 224 | 2 => 256 | 3 => 384 | _ => 521 end.
+Fixpoint script_of (l : list (list byte)) : list rd_ev :=
+  match l with
+  | [] => []
+  | (x :: b) :: t => (if byte_eqb x x44 then Data b else Fault) :: script_of t     (* 'D' ++ bytes | anything else = fault *)
+  | [] :: t => Fault :: script_of t
+  end.
 Definition dispatch_ed (name : list byte) (a : list (list byte)) : option (list (list byte)) :=
   if is name "ed_sign_prep" then           (* seed msg -> secret scalar, nonce *)
     Some [le_bytes 32 (ed_secret_scalar (arg a 0)); le_bytes 32 (ed_nonce (ed_prefix (arg a 0)) (arg a 1))]
@@ -60,6 +67,13 @@ Definition dispatch_ed (name : list byte) (a : list (list byte)) : option (list 
   else if is name "ed_hram" then Some [le_bytes 32 (ed_hram (arg a 0) (arg a 1) (arg a 2))]
   else if is name "ed_is_reduced" then Some [if is_reduced (arg a 0) then st_ok else st_none]
   else if is name "ed_clamp" then Some [le_bytes 32 (clamp (arg a 0))]
+  else if is name "ed_verify_pre" then
+    (* sig -> [length ok && early check passes ; S canonical] *)
+    let sig := arg a 0 in
+    let okl := Nat.eqb (length sig) 64 && (N.land (b2n (nth 63 sig x00)) 224 =? 0) in
+    Some [if okl then st_ok else st_none; if is_reduced (skipn 32 sig) then st_ok else st_none]
+  else if is name "ed_keygen_entropy" then
+    Some (match read_full (script_of a) 32 [] with Ok (b, _) => [st_ok; b] | _ => [st_none; []] end)
   else None.
 
 Definition dispatch_verify (name : list byte) (a : list (list byte)) : option (list (list byte)) :=
@@ -70,13 +84,6 @@ Definition dispatch_verify (name : list byte) (a : list (list byte)) : option (l
     Some [if verify prf t then st_ok else st_none; auth_input t]
   else None.
 
-Definition curve_bits (c : N) : N := match c with 1 => 224 | 2 => 256 | 3 => 384 | _ => 521 end.
-Fixpoint script_of (l : list (list byte)) : list rd_ev :=
-  match l with
-  | [] => []
-  | (x :: b) :: t => (if byte_eqb x x44 then Data b else Fault) :: script_of t     (* 'D' ++ bytes | anything else = fault *)
-  | [] :: t => Fault :: script_of t
-  end.
 Definition out_entropy (r : res (list byte)) : list (list byte) :=
   match r with Ok e => [st_ok; e] | Err => [st_none; []] | Panic => [st_panic; []] end.
 Definition dispatch_ecdsa (name : list byte) (a : list (list byte)) : option (list (list byte)) :=
